@@ -273,9 +273,15 @@ def run_shard(spec, seed):
         if any(l["kind"].startswith("rand:") for l in prog["leaves"]):
             labels.append("seeded-random-source")
         nt = P.n_blocks_max(prog) > 1 and any(s["op"] in CUSTOM_TOKEN_OPS for s in prog["stmts"])
-        if len(batch) < spec.get("fresh_batch", 12):
+        # the fresh interpreter sees the first programs of the shard, and beyond those every program in which
+        # one node combines two DIFFERENT computed operands (where set-ordered traversals can show)
+        joins = any(len(set(s["args"])) >= 2 and all(j >= len(prog["leaves"]) for j in s["args"]) for s in prog["stmts"])
+        nb = spec.get("fresh_batch", 12)
+        if len(batch) < nb or (joins and len(batch) < 3 * nb):
             batch.append((case, ref, pickles))
             labels.append("fresh-process")
+            if joins:
+                labels.append("fresh-process:joins-two-computed-operands")
         if len(prog["stmts"]) % 4 == 0:
             try:
                 fails += check_untokenizable(prog["leaves"][0])
